@@ -44,7 +44,14 @@ pub enum Step {
 	GuardOps { ops: Vec<BodyOp> },
 	Release { how: ReleaseHow },
 	Scoped { target: TargetRef, read: bool, try_: bool, owned_key: bool, body: Vec<BodyOp> },
-	PhantomHold { leaf: Lid, shared: bool },
+	/// `transient`: the phantom holder lets go as soon as the thread under test
+	/// blocks on the lock (a concurrent holder that finishes while we wait)
+	PhantomHold {
+		leaf: Lid,
+		shared: bool,
+		#[serde(default)]
+		transient: bool,
+	},
 	PhantomRelease { leaf: Lid },
 	IsPoisoned { target: TargetRef },
 	ClearPoison { target: TargetRef },
